@@ -13,7 +13,7 @@ SEED = int(os.environ.get("VERIF_SEED", "1"))
 TAG_PROPERTY = {
     "mon.wf.post": "C01", "mon.wf.ev": "C01", "on": "C01",
     "mon.balanced": "C03", "mon.exited-all": "C03", "badThis": "C03", "badOrigin": "C03",
-    "mon.guards-first": "C04", "mon.veto.act": "C04", "mon.veto.res": "C04", "mon.veto.life": "C04",
+    "mon.idle.req": "C02", "mon.guards-first": "C04", "mon.veto.act": "C04", "mon.veto.res": "C04", "mon.veto.life": "C04",
     "ev.guard": "C04", "ev.guard.pending": "C04", "q": "C04", "req": "C04", "rem": "C04", "oreq": "C04",
     "ev.traverse": "C05", "mon.reach": "C05",
     "ev.plan": "C06", "plans": "C06", "pex": "C06", "succ": "C06", "fail": "C06", "tasks": "C06", "hst": "C06", "sst": "C06",
@@ -31,11 +31,11 @@ CONFIG_TAGS = {"act", "isA", "res"}
 UNATTRIBUTED = {"ev.life", "ev.report", "ev.all"}
 
 TIERS = {
-    "quick": dict(fixtures=["min", "comp", "ortho", "strat", "auto", "peers"], records=900, chunks=3,
+    "quick": dict(fixtures=["min", "comp", "ortho", "strat", "auto", "peers", "util"], records=900, chunks=3,
                   variants=["plain", "asan", "assert"], extra_variant_fixtures=["min", "ortho", "auto"],
-                  mc=["min", "comp"], systematic={"auto": 2, "ortho": 1}),
-    "thorough": dict(fixtures=["min", "comp", "ortho", "strat", "auto", "peers", "oroot", "wide", "plan", "selpeers"],
-                     records=12000, chunks=12, variants=["plain", "asan", "assert", "dev", "plain11"], mc=["min", "comp", "ortho", "oroot"],
+                  mc=["min", "comp", "util"], systematic={"auto": 2, "ortho": 1}),
+    "thorough": dict(fixtures=["min", "comp", "ortho", "strat", "auto", "peers", "oroot", "wide", "plan", "selpeers", "util"],
+                     records=12000, chunks=12, variants=["plain", "asan", "assert", "dev", "plain11"], mc=["min", "comp", "ortho", "oroot", "util", "peers"],
                      systematic={"min": 12, "comp": 10, "ortho": 8, "strat": 6, "auto": 10, "peers": 6, "oroot": 8, "plan": 6}),
 }
 
@@ -238,7 +238,7 @@ def primary(run, ds):
     return None, []
 
 
-MC_PROPS = {"C01": ["WellFormedState", "WellFormedCallbacks"], "C02": ["P_Prescribed"], "C03": ["P_Balanced"],
+MC_PROPS = {"C01": ["WellFormedState", "WellFormedCallbacks"], "C02": ["P_Prescribed"], "C12": ["P_Prescribed"], "C08": ["RoundTrip"], "C03": ["P_Balanced"],
             "C04": ["P_Guards"], "C05": ["P_Delivery"]}
 
 
@@ -402,3 +402,78 @@ def behavioural(pid, tier, out, extra_tags=(), accept=None):
                         "the generated executor reports the library's state faithfully (private fields read through an access probe)",
                         "structures limited to the fixture family (<= 25 states); callbacks act through scripts of <= 3 hooks per call"]
     return camp
+
+
+# ------------------------------------------------------------------------------------------
+# C15 : feature combinations and header flavour
+
+C15_SETS = {
+    "quick": [("all-dev", gen.ALL_FEATURES, "dev"), ("none", [], "plain"), ("noplans", [f for f in gen.ALL_FEATURES if f != "PLANS"], "plain"),
+              ("nohistory", [f for f in gen.ALL_FEATURES if f != "TRANSITION_HISTORY"], "plain"),
+              ("noutility", [f for f in gen.ALL_FEATURES if f != "UTILITY_THEORY"], "plain"),
+              ("loginterface", ["LOG_INTERFACE"], "plain11")],
+    "thorough": [("all", gen.ALL_FEATURES, "plain"), ("all-dev", gen.ALL_FEATURES, "dev"), ("none", [], "plain"), ("none-dev", [], "dev"),
+                 ("loginterface", ["LOG_INTERFACE"], "plain"), ("all11", gen.ALL_FEATURES, "plain11")]
+                + [("no" + f.lower(), [g for g in gen.ALL_FEATURES if g != f], "plain") for f in gen.ALL_FEATURES]
+                + [("only" + f.lower(), [f], "dev") for f in gen.ALL_FEATURES if f != "VERBOSE_DEBUG_LOG"],
+}
+C15_FIXTURES = {"quick": ["comp", "ortho"], "thorough": ["comp", "ortho", "auto", "oroot", "wide"]}
+
+
+def c15_campaign(tier, seed=SEED, log=print):
+    """the SAME command lists (common feature subset: no plans, no utility requests, no serialization, no replay) on every
+    build; each trace judged by the one specification (feature-dependent reports blanked according to the build)"""
+    key = hashlib.sha256(("c15|%s|%s|%s|%d" % (build.repo_hash(), verif_hash(), tier, seed)).encode()).hexdigest()[:24]
+    cdir = os.path.join(tlc.CACHE, "campaign", key)
+    rfile = os.path.join(cdir, "result.json")
+    if os.path.exists(rfile):
+        return json.load(open(rfile))
+    shutil.rmtree(cdir, ignore_errors=True)
+    os.makedirs(cdir)
+    result = dict(key=key, runs=[], errors=[])
+    common = dict(plans=False, utility=False, serial=False, quiet=0.0)
+    from concurrent.futures import ThreadPoolExecutor
+    todo = []
+    for fxname in C15_FIXTURES[tier]:
+        base = fixture(fxname)
+        for setname, feats, variant in C15_SETS[tier]:
+            fx = dict(base, name="%s_%s" % (fxname, setname.replace("-", "_")), config=dict(base.get("config", {}), features=list(feats)))
+            todo.append((fxname, fx, feats, variant))
+
+    def _build(item):
+        try:
+            return build.build(item[1], item[3])
+        except RuntimeError as e:
+            return e
+    build.repo_hash()
+    with ThreadPoolExecutor(max_workers=14) as pool:
+        exes = list(pool.map(_build, todo))
+    for (fxname, fx, feats, variant), exe in zip(todo, exes):
+        if True:
+            if isinstance(exe, RuntimeError):
+                result["errors"].append(dict(kind="build", fixture=fx["name"], variant=variant, msg=str(exe)[:1500]))
+                continue
+            f = os.path.join(cdir, "%s.ndjson" % fx["name"])
+            n, crash = explore.random_walks(fx, exe, f, seed * 4099 + sum(map(ord, fxname)), 500 if tier == "quick" else 3000, profile=common)
+            d, res = explore.validate(fx, [f], dev=open_switches(), jobs=1)
+            run = dict(fixture=fx["name"], variant=variant, features=list(feats), files=[f], checked=0, diffs=[], crashes=[], tlc_errors=[], notes={})
+            if crash:
+                run["crashes"].append(dict(file=f, rc=crash[0], stderr=crash[1][-800:], records=n))
+            for r in res:
+                run["checked"] += r["checked"]
+                if r["error"]:
+                    run["tlc_errors"].append(dict(file=r["file"], msg=r["error"][-800:]))
+                for dd in r["diffs"]:
+                    run["diffs"].append(dict(file=r["file"], l=dd["l"], tag=dd["tag"], call="", detail=[x[:400] for x in dd["detail"]]))
+            shutil.rmtree(d, ignore_errors=True)
+            # the callback sequence of the run (for the cross-build comparison)
+            h = hashlib.sha256()
+            with open(f) as fh:
+                for line in fh:
+                    r = json.loads(line)
+                    h.update(json.dumps([r["a"], [[e[0], e[1]] for e in r["ev"]], (r["post"] or {}).get("act") if isinstance(r["post"], dict) else None]).encode())
+            run["behaviour_hash"] = h.hexdigest()
+            result["runs"].append(run)
+            log("c15 %s/%s: %d steps, %d diffs" % (fx["name"], variant, run["checked"], len([x for x in run["diffs"] if ".D10" not in x["tag"]])))
+    json.dump(result, open(rfile, "w"))
+    return result
